@@ -95,13 +95,25 @@ def one_case(ctx, rng, n, big=False):
     follow = [(rng.choice(['same', 'reread']), rng.random() < 0.5, rng.random() < 0.7) for _ in range(rng.choice([0, 1, 2]))]
     case = {'index': n, 'big': big, 'create_signature': sigflag, 'remove_duplicates': dedup, 'blocks': len(stored),
             'follow_up_writes': follow}
+    # file names with and without the .seq suffix (write() appends it when missing), definitions with non-ASCII text
+    name = rng.choice(['a.seq', 'a.seq', 'scan', 'scan.v2', 'b.SEQ.seq', 'name with space.seq'])
+    if rng.random() < 0.3:
+        seq.set_definition('Name', rng.choice(['M\u00fcller \u00b5T/m 30\u00b0', 'caf\u00e9', '\u6d4b\u8bd5 seq', 'plain ascii name']))
+    case['file_name'] = name
     with tempfile.TemporaryDirectory(prefix='pvC03') as d:
-        fn = os.path.join(d, 'a.seq')
+        fn = os.path.join(d, name)
         try:
             ret = seq.write(fn, create_signature=sigflag, remove_duplicates=dedup)
         except AssertionError:
             ctx.count('skipped.write_assertion')
             return None
+        produced = sorted(os.listdir(d))
+        want = name if name.endswith('.seq') else name + '.seq'
+        if produced != [want]:
+            ctx.fail('C03/files-produced', case, {'produced': produced, 'expected': [want]})
+            return None
+        fn = os.path.join(d, want)
+        ctx.count('name.' + ('with_suffix' if name.endswith('.seq') else 'without_suffix'))
         data = open(fn, 'rb').read()
         s2 = pp.Sequence()
         s2.read(fn)
